@@ -40,6 +40,23 @@ SameBag(a, b) == Len(a) = Len(b) /\ \A i \in DOMAIN a : Count(a, a[i]) = Count(b
 MountEq(m, v) == m.dest = v.dest /\ m.type = v.type /\ m.src = v.src /\ SameBag(m.opts, v.opts)
 DeviceEq(d, v) == d.major = v.major /\ d.minor = v.minor
 
+\* ParsePluginName (names of pre-installed plugins, C18; indices of external ones, C17): "<idx>-<base>", split at the
+\* FIRST dash; the index is exactly two decimal digits; the base is whatever follows (it may be empty or contain dashes)
+Digits == {"0", "1", "2", "3", "4", "5", "6", "7", "8", "9"}
+IdxOK(i) == Len(i) = 2 /\ SubSeq(i, 1, 1) \in Digits /\ SubSeq(i, 2, 2) \in Digits
+DashAt(n) == {i \in 1..Len(n) : SubSeq(n, i, i) = "-"}
+Min(S) == CHOOSE x \in S : \A y \in S : x <= y
+NameExp(n) ==
+  IF DashAt(n) = {} THEN [ok |-> FALSE, idx |-> "", base |-> ""]
+  ELSE LET d == Min(DashAt(n))  i == SubSeq(n, 1, d - 1) IN
+       IF IdxOK(i) THEN [ok |-> TRUE, idx |-> i, base |-> SubSeq(n, d + 1, Len(n))] ELSE [ok |-> FALSE, idx |-> "", base |-> ""]
+
+\* EventMask as a set of events: Set / Clear / IsSet, and PrettyString - the names in bit order (the order of Events),
+\* comma separated, which ParseEventMask reads back to the same mask; a bit beyond the last event is printed as unknown(0x..)
+\* and is not readable again
+MaskExp(set, clr) == set \ clr
+PrettyExp(m) == SelectSeq(Events, LAMBDA e : e \in m)
+
 \* ---------------------------------------------------------------- scenarios --
 CONSTANT Mode
 VARIABLES sc, emitted
@@ -68,7 +85,15 @@ HookSets == {<<>>, <<"h1">>, <<"h2", "h3">>}
 HooksScen == {[kind |-> "hooks", a |-> [prestart |-> x, poststop |-> y], b |-> [prestart |-> u, poststop |-> v]] :
                 x \in HookSets, y \in {<<>>, <<"h9">>}, u \in HookSets, v \in {<<>>, <<"h8">>}}
 
-Scenarios == CASE Mode = "parse" -> ParseScen [] Mode = "misc" -> MarkScen \cup CmpDevScen \cup HooksScen
+NameScen == {[kind |-> "plugin-name", key |-> k] :
+               k \in {"00-a", "99-logger", "10-a-b", "05-", "5-a", "005-a", "a5-x", "5a-x", "-5-a", "10", "10_a", "", "-", "--", "1 -a", "10--a",
+                      "10-a/b", "ARABIC-a", "10-a.b"}}   \* ARABIC-a: the driver spells the index with two Arabic-Indic digits
+MaskSubsets == {{}, {"RunPodSandbox"}, {"PostUpdatePodSandbox"}, {"CreateContainer", "StopContainer"}, PodEvents, CtrEvents, EventSet,
+                EventSet \ {"UpdateContainer"}}
+MaskScen == {[kind |-> "mask", set |-> PrettyExp(a), clr |-> PrettyExp(b), extra |-> x] :
+               a \in MaskSubsets, b \in MaskSubsets, x \in {FALSE, TRUE}}
+Scenarios == CASE Mode = "parse" -> ParseScen [] Mode = "misc" -> MarkScen \cup CmpDevScen \cup HooksScen \cup NameScen
+               [] Mode = "mask" -> MaskScen
                [] Mode = "mounts" -> CmpMountScen
 GInit == sc \in Scenarios /\ emitted = FALSE
 GEmit == ~emitted /\ PrintT(<<"CASE", ToJson(sc)>>) /\ emitted' = TRUE /\ UNCHANGED sc
@@ -77,4 +102,7 @@ GSpec == GInit /\ [][GEmit]_<<sc, emitted>>
 \* design-level facts
 ShorthandsPartition == PodEvents \cup CtrEvents = EventSet /\ PodEvents \cap CtrEvents = {}
 CmpIsEquivalence == \A a, b \in Mounts : MountEq(a, b) = MountEq(b, a)
+\* PrettyString and ParseEventMask are inverse on valid masks (in the model: the names parse, one by one, to the same set)
+PrettyParses == \A m \in MaskSubsets : ParseExp([i \in DOMAIN PrettyExp(m) |-> Tok(PrettyExp(m)[i], "camel")]) = [ok |-> TRUE, ev |-> m]
+NameSplitsBack == \A s \in NameScen : NameExp(s.key).ok => NameExp(s.key).idx \o "-" \o NameExp(s.key).base = s.key
 =============================================================================
